@@ -45,6 +45,18 @@ def scenarios(tier, seed=0):
         for iwc in (["WP", "FC", "Pct40", "Pct70"] if method == 1 else ["WP", "FC"]):
             c = A._b(crop=ck, iwc=iwc, word=word, win="w2", soil="SandyLoam")
             yield {"kind": "irr", "config": c, "irr": irr_spec(method, kw, sch, mi, ms, eff)}
+    # net irrigation (and the threshold strategy) on layered soils with a finer / coarser top layer, roots crossing the boundary
+    for soil in ("clayoversand", "sandoverclay", "Tunis", "Paddy"):
+        for (method, kw, sch) in [x for x in STRATS if x[0] in (1, 4)]:
+            for word in ("dry", "normal"):
+                c = A._b(crop="maize.2", iwc="FC", word=word, win="w2", soil=soil)
+                yield {"kind": "irr", "config": c, "irr": irr_spec(method, kw, sch, 25, 10000, 100)}
+    for name in ("Wheat",):
+        for soil in ("Tunis", "clayoversand"):
+            for smt in (50, 80):
+                spec = A.catalogue_spec(name, word="showers", iwc="FC", soil=soil, planting="10/15", start="2001/10/15", end="2002/09/30")
+                spec["irr"] = {"method": 4, "kw": {"NetIrrSMT": smt}}
+                yield {"kind": "spec", "spec": spec, "label": ["net-layered", name, soil, smt]}
     if tier != "quick":
         # starts after planting / off-season simulated / partial wetting / full-length crops
         for (method, kw, sch), off, wet in itertools.product(STRATS, [True], [100, 30]):
